@@ -2,7 +2,8 @@
 
 (H) hand model coq/Model/C15Pipeline.v of construct-pipeline / pipeline-duplicate-buffers /
 unroll-pipeline.
-L1: generated loops of the recognised shape are run through the three real passes; the result is
+L1: generated loops (of the recognised shape, and loops with a stray op between / behind the stages, which the
+    passes must leave unchanged) are run through the three real passes; the result is
     interpreted (index arithmetic evaluated, memrefs resolved to (allocation, offset)) into
     barrier-separated phases of op instances with read/write footprints and compared, exactly, with
     the phases the model computes (phase structure, evaluated index expressions, parity-selected
@@ -24,7 +25,10 @@ RULE = ("loops `scf.for lb to %ub step st` (lb in {0,1,2}, st in {1,2,3}, mostly
         "stages of memref.copy / linalg.generic (accumulating or not) over function-argument buffers accessed "
         "through index-dependent subviews (tiles) and loop-invariant allocs chained stage to stage; an adversarial "
         "stream adds shared writes, non-adjacent uses, accumulating producers, tile/whole-buffer aliasing, several "
-        "ops per stage; every loop is evaluated for ub = 0..6. Non-trivial = pipeline constructed; distinct = "
+        "ops per stage; a malformed stream puts an op that is neither a stage op nor a barrier behind a barrier or inside a "
+        "stage (not the recognised shape: the passes must leave the loop alone), some loops are followed by a copy "
+        "into a tile at offset %lb (second user of the lower-bound constant); a fixed corpus of loop descriptions runs "
+        "first; every loop is evaluated for ub = 0..6. Non-trivial = pipeline constructed; distinct = "
         "distinct (loop description, ub)")
 TRUSTED_BASE = [
     "Coq 8.16.1 kernel + vm_compute (no native_compute)",
@@ -60,6 +64,10 @@ def gen_loop(rng, adversarial=False):
             for o in st:
                 opnds = o["ins"] + o["outs"]
                 if len(opnds) != len(set(opnds)):
+                    ok = False
+                # memref.copy needs equal shapes: no whole 64-element argument (%x0..%x2) on a copy (the second op of
+                # a stage may pick the extra whole-buffer input of the first one as its source)
+                if o["kind"] == "copy" and any(x[0] == "F" and x[1] < 3 for x in opnds):
                     ok = False
         if ok:
             return d
@@ -111,7 +119,16 @@ def _gen_loop(rng, adversarial=False):
         lb = rng.choice([1, 2])
     elif r < 0.24:
         st = rng.choice([2, 3])
-    return {"stages": stages, "allocs": allocs, "lb": lb, "st": st}
+    d = {"stages": stages, "allocs": allocs, "lb": lb, "st": st}
+    # malformed / edge stream: an op that is neither a stage op nor a barrier (an arith.constant) directly behind the
+    # barrier of stage k ("after"; k = S-1: between the last barrier and the yield) or between the last op of stage k
+    # and its barrier ("in"): not the recognised shape
+    if rng.random() < 0.15:
+        d["stray"] = [rng.choice(["after", "after", "in"]), rng.randrange(len(stages))]
+    # a second user of the lower-bound constant behind the loop (one shared %c0 is the normal situation after CSE)
+    if rng.random() < 0.3:
+        d["post"] = True
+    return d
 
 
 def mutate_adversarial(rng, stages, allocs, stride):
@@ -192,7 +209,8 @@ def loop_text(d):
             return f"%x{x[1]}", ("memref<64xi32>" if x[1] < 3 else f"memref<{TILE}xi32>")
         return f"%b{x[1]}", f"memref<{TILE}xi32>"
 
-    for st in d["stages"]:
+    stray = d.get("stray")
+    for k, st in enumerate(d["stages"]):
         for o in st:
             if o["kind"] == "copy":
                 (a, ta), (b, tb) = name(o["ins"][0]), name(o["outs"][0])
@@ -214,14 +232,49 @@ def loop_text(d):
                          f'ins({", ".join(a for a, _ in ins)} : {", ".join(t for _, t in ins)}) '
                          f'outs({", ".join(a for a, _ in outs)} : {", ".join(t for _, t in outs)}) attrs = {{vid = {o["vid"]} : i64}} {{\n'
                          f'    ^bb0({args}):\n{body}      linalg.yield {ys} : {yts}\n    }}')
+        if stray and stray[0] == "in" and stray[1] == k:
+            L.append("    %stray = arith.constant 7 : index")
         L.append('    "snax.cluster_sync_op"() : () -> ()')
-    L += ["  }", "  func.return", "}"]
+        if stray and stray[0] == "after" and stray[1] == k:
+            L.append("    %stray = arith.constant 7 : index")
+    L.append("  }")
+    if d.get("post"):
+        L.append(f"  %tpost = memref.subview %x2[%lb][{TILE}][1] : memref<64xi32> to {sty}")
+        L.append(f'  "memref.copy"(%x3, %tpost) {{vid = {POST_VID} : i64}} : (memref<{TILE}xi32>, {sty}) -> ()')
+    L += ["  func.return", "}"]
     return "\n".join(L)
+
+
+POST_VID = 200
+
+
+def post_events(d):
+    """the phase behind the loop (every loop ends with a barrier): the copy %x3 -> tile of %x2 at offset lb"""
+    return [[(POST_VID, 1, [bid(3, 0)], [bid(2, d["lb"])])]] if d.get("post") else []
+
+
+STAGE_OPS = ("memref.copy", "linalg.generic", "dart.operation", "dart.schedule", "dart.access_pattern", "snax_stream.streaming_region")
+
+
+def body_tokens(fop):
+    """the loop body as ConstructPipeline scans it (read off the parsed IR, before the passes): the ops behind the
+    leading index ops up to the scf.yield, as TStage / TSync / TOther"""
+    loops = [op for op in fop.walk() if op.name == "scf.for"]
+    if len(loops) != 1:
+        raise Unsupported("expected exactly one loop")
+    toks = []
+    for op in loops[0].body.block.ops:
+        if op.name == "scf.yield":
+            break
+        toks.append("TStage" if op.name in STAGE_OPS else "TSync" if op.name == "snax.cluster_sync_op" else "TOther")
+    while toks and toks[0] == "TOther":
+        toks.pop(0)
+    return toks
 
 
 # ------------------------------------------------------------------ interpreter of the real IR
 def bid(b, off):
-    return b * 1048576 + 524288 + off
+    return b * 1048576 + 524288 + off  # same encoding as Model/C15Pipeline.v bid
 
 
 class Interp:
@@ -334,12 +387,13 @@ def real_pipeline(d):
     mod = mc_ir.parse(loop_text(d))
     fop = find_func(mod)
     ids, keep = alloc_ids_of(fop, d)
+    toks = body_tokens(fop)
     ConstructPipelinePass().apply(c, mod)
     constructed = any(op.name == "pipeline.pipeline" for op in mod.walk())
     try:
         PipelineDuplicateBuffersPass().apply(c, mod)
     except NotImplementedError:
-        return mod, ids, "notimpl", constructed, []
+        return mod, ids, "notimpl", constructed, [], toks
     UnrollPipelinePass().apply(c, mod)
     mod.verify()
     dups = []
@@ -350,7 +404,7 @@ def real_pipeline(d):
                 raise Unsupported("cannot attribute a new alloc to the buffer it duplicates")
             ids[id(op)] = ids[id(prev)] + 1000
             dups.append(ids[id(prev)])
-    return (mod, keep), ids, "ok", constructed, sorted(dups)
+    return (mod, keep), ids, "ok", constructed, sorted(dups), toks
 
 
 def real_sequential(d, ub):
@@ -388,23 +442,24 @@ UBS = [0, 1, 2, 3, 4, 5, 6]
 
 # model's prediction of what the three passes produce, compared per ub
 L1_DEFS = """
-Definition model_out (p : pipe) (lb st ub : Z) : option (list (list mop)) :=
-  if recognised p lb st then
+Definition model_out (p : pipe) (lb st : Z) (body : list btok) (ub : Z) : option (list (list mop)) :=
+  if recognised p lb st body then
     match dups p with
     | None => None
     | Some ds => Some (pipe_events p ds ub st)
     end
   else Some (seq_events p lb ub st).
-Definition l1_ok (c : pipe * Z * Z * option (list Z) * list (Z * list (list mop) * list (list mop))) : bool :=
-  match c with (p, lb, st, rd, runs) =>
+(* post: the phase behind the loop (a copy into a tile at offset lb), the same before and after the passes *)
+Definition l1_ok (c : pipe * Z * Z * list btok * list (list mop) * option (list Z) * list (Z * list (list mop) * list (list mop))) : bool :=
+  match c with (p, lb, st, body, post, rd, runs) =>
     match rd with
-    | None => match (if recognised p lb st then dups p else Some []) with None => true | Some _ => false end
+    | None => match (if recognised p lb st body then dups p else Some []) with None => true | Some _ => false end
     | Some ds =>
-        match (if recognised p lb st then dups p else Some []) with
+        match (if recognised p lb st body then dups p else Some []) with
         | Some ds' => list_eqb Z.eqb ds ds' &&
             forallb (fun r => match r with (ub, sq, pp) =>
-               phases_eqb (seq_events p lb ub st) sq &&
-               match model_out p lb st ub with Some m => phases_eqb m pp | None => false end end) runs
+               phases_eqb (seq_events p lb ub st ++ post) sq &&
+               match model_out p lb st body ub with Some m => phases_eqb (m ++ post) pp | None => false end end) runs
         | None => false
         end
     end
@@ -415,9 +470,10 @@ Definition l1_ok (c : pipe * Z * Z * option (list Z) * list (Z * list (list mop)
 def build_case(d):
     """returns (coq literal of the L1/L2 case, info) ; runs the real passes and the interpreter"""
     res = real_pipeline(d)
-    modk, ids, status, constructed, dups = res
+    modk, ids, status, constructed, dups, toks = res
+    head = f"{coq_pipe(d)}, {zlit(d['lb'])}, {zlit(d['st'])}, {coqlist(toks)}, {coq_phases(post_events(d))}"
     if status == "notimpl":
-        return f"({coq_pipe(d)}, {zlit(d['lb'])}, {zlit(d['st'])}, None, [])", {"status": status, "constructed": constructed}, []
+        return f"({head}, None, [])", {"status": status, "constructed": constructed}, []
     mod, keep = modk
     runs = []
     raw = []
@@ -426,20 +482,52 @@ def build_case(d):
         pp = Interp(find_func(mod), ids, ub).result()
         runs.append(f"({zlit(ub)}, {coq_phases(sq)}, {coq_phases(pp)})")
         raw.append((ub, sq, pp))
-    lit = f"({coq_pipe(d)}, {zlit(d['lb'])}, {zlit(d['st'])}, Some {vlib.zlist(dups)}, {coqlist(runs)})"
+    lit = f"({head}, Some {vlib.zlist(dups)}, {coqlist(runs)})"
     return lit, {"status": status, "constructed": constructed, "dups": dups}, raw
 
 
-CASE_TY = "pipe * Z * Z * option (list Z) * list (Z * list (list mop) * list (list mop))"
+CASE_TY = "pipe * Z * Z * list btok * list (list mop) * option (list Z) * list (Z * list (list mop) * list (list mop))"
 SH = 12
+
+
+def _chain(S, **extra):
+    """load / (compute)* / store chain over allocs 10.., one op per stage"""
+    st = []
+    for k in range(S):
+        src = ("T", 0, TILE) if k == 0 else ("F", 9 + k)
+        dst = ("T", 1, TILE) if k == S - 1 else ("F", 10 + k)
+        st.append([{"vid": k + 1, "kind": "copy" if k in (0, S - 1) else "generic", "ins": [src], "outs": [dst], "acc": False}])
+    return {"stages": st, "allocs": list(range(10, 11 + S)), "lb": 0, "st": 1, **extra}
+
+
+def _skip_loop():
+    """the buffer written by stage 0 is read by stage 2 only (not adjacent: the pass must refuse)"""
+    d = _chain(3)
+    d["stages"][1][0]["ins"] = [("F", 3)]
+    d["stages"][1][0]["kind"] = "copy"
+    d["stages"][2][0] = {"vid": 3, "kind": "generic", "ins": [("F", 11), ("F", 10)], "outs": [("T", 1, TILE)], "acc": False}
+    return d
+
+
+# minimised members of classes that were missed or found late once; they run first in L1 and L2
+CORPUS = [
+    _chain(3, stray=["after", 1]),      # op behind the barrier of the 2nd of 3 stages: not the recognised shape
+    _chain(2, stray=["after", 1]),      # op between the last barrier and the yield
+    _chain(3, stray=["in", 2]),         # op between the last stage op and its barrier
+    _chain(3, stray=["after", 0]),
+    _chain(3, post=True),               # the lower-bound constant has a second user behind the loop
+    _chain(2, post=True),
+    _chain(4),
+    _skip_loop(),
+]
 
 
 def correspondence(ctx):
     rng = ctx.rng
     n = ctx.n(45, 300)
     dis, cases, meta = [], [], []
-    for i in range(n):
-        d = gen_loop(rng, adversarial=(i % 3 == 2))
+    for i in range(-len(CORPUS), n):
+        d = _norm_loop(CORPUS[i + len(CORPUS)]) if i < 0 else gen_loop(rng, adversarial=(i % 3 == 2))
         try:
             lit, info, _ = build_case(d)
         except Unsupported as e:
@@ -478,17 +566,17 @@ Definition l2_code (p : pipe) (ds : list Z) (sq pp : list (list mop)) : Z :=
   let obs := filter (fun x => negb (memb x locals)) (footprint sq ++ footprint pp) in
   (if all_drf pp then 0 else 1) + (if same_result obs sq pp then 0 else 2) + (if within allowed pp then 0 else 4).
 (* class of the input: 1 = small_trip, 2 = not safe_pipe, 0 = inside the proved domain *)
-Definition l2_class (p : pipe) (ds : list Z) (lb st ub : Z) : Z :=
-  match (if recognised p lb st then dups p else Some []) with
+Definition l2_class (p : pipe) (ds : list Z) (lb st : Z) (body : list btok) (ub : Z) : Z :=
+  match (if recognised p lb st body then dups p else Some []) with
   | Some ds' => if negb (list_eqb Z.eqb ds ds') then 0   (* the pass duplicated something else than it should: no excuse *)
                 else if small_trip (nstages p) lb ub st then 1 else if safe_pipe p ds then 0 else 2
   | None => 0                                            (* the pass should have refused this loop *)
   end.
-Definition l2_eval (c : pipe * Z * Z * option (list Z) * list (Z * list (list mop) * list (list mop))) : list Z :=
-  match c with (p, lb, st, rd, runs) =>
+Definition l2_eval (c : pipe * Z * Z * list btok * list (list mop) * option (list Z) * list (Z * list (list mop) * list (list mop))) : list Z :=
+  match c with (p, lb, st, body, post, rd, runs) =>
     match rd with
     | None => []
-    | Some ds => flat_map (fun r => match r with (ub, sq, pp) => [l2_code p ds sq pp; l2_class p ds lb st ub] end) runs
+    | Some ds => flat_map (fun r => match r with (ub, sq, pp) => [l2_code p ds sq pp; l2_class p ds lb st body ub] end) runs
     end
   end.
 """
@@ -535,7 +623,7 @@ def run_l2(ctx, loops):
 def search(ctx, deep=False):
     rng = ctx.rng
     n = ctx.n(40, 250) * (3 if deep else 1)
-    loops = []
+    loops = [_norm_loop(d) for d in CORPUS]
     for i in range(n):
         d = gen_loop(rng, adversarial=(i % 4 == 3))
         loops.append(d)
@@ -584,7 +672,7 @@ def replay(ctx, obj):
     for x in fails:
         print("FAIL ub=%s class=%s: %s" % (x.get("ub"), x["klass"], x["what"]))
     try:
-        (mod, _), ids, status, _, dups = real_pipeline(d)
+        (mod, _), ids, status, _, dups, _ = real_pipeline(d)
         print("---- real output\n" + str(mod))
     except Exception as e:
         print("passes:", repr(e))
